@@ -210,7 +210,7 @@ def check_stitching(prog, ctx):
                       "before `%s` the shared point's weight %s[0] is added to %s[-1]" % (src(call), show(B[1]), show(A)),
                       "`%s` drops the first weight of %s but that weight was not added to %s[-1] of the same array: the point shared by the two "
                       "sub-intervals loses one contribution" % (src(call), show(B[1]), show(A)))
-    ctx.floor("C09.D3", n, 4, "overlap-add concatenations in the high-order rule")
+    ctx.floor("C09.D3", n, 2, "overlap-add concatenations in the high-order rule")
 
 
 def check_modified_small_cases(prog, ctx, cw):
